@@ -383,12 +383,6 @@ func c19Scenarios(thorough bool) []*core.Scenario {
 	for _, s := range sqlScenarios("C19", thorough) {
 		scs = append(scs, s.build("C19"))
 	}
-	for _, s := range c12Scenarios(false) {
-		if strings.HasPrefix(s.Name, "flood/") || s.Bound > 0 {
-			continue // C12's own deadlock hunts (capacity abstraction, 102 clients, 2 preemptions) are not race scenarios
-		}
-		scs = append(scs, s.build(1))
-	}
 	scs = append(scs, c19BPMScenarios()...)
 	// concurrently committing writers, also on a 10-frame pool (eviction of dirty pages next to commits)
 	scs = append(scs, c08ConcScenarios(thorough)...)
@@ -397,7 +391,16 @@ func c19Scenarios(thorough bool) []*core.Scenario {
 			scs = append(scs, s.build(1))
 		}
 	}
-	return append(scs, c19Maintenance())
+	scs = append(scs, c19Maintenance())
+	// the request-manager scenarios are the largest (tens of thousands of schedules each): they come last, so
+	// that a run that reaches its time budget has covered everything else
+	for _, s := range c12Scenarios(false) {
+		if strings.HasPrefix(s.Name, "flood/") || s.Bound > 0 {
+			continue // C12's own deadlock hunts (capacity abstraction, 102 clients, 2 preemptions) are not race scenarios
+		}
+		scs = append(scs, s.build(1))
+	}
+	return scs
 }
 
 func init() {
